@@ -1,6 +1,8 @@
 //! The suites of the store cluster.
 use crate::gen::{gen_cases, Cols, Family};
+use crate::crash::run_crash;
 use crate::hist::run_history;
+use lvharness::rng::Rng;
 use lvharness::suite::{Case, Outcome, Suite};
 use lvharness::sx::Sx;
 
@@ -23,6 +25,43 @@ impl Suite for HistSuite {
     }
 }
 
+/// C09: crash cuts of workloads over {ingest into 1-2 tables, flush with and without compaction, restart}
+pub struct CrashSuite;
+
+impl Suite for CrashSuite {
+    fn name(&self) -> &'static str {
+        "c09_crash"
+    }
+    fn generate(&self, seed: u64, tier: &str) -> Vec<Case> {
+        let mut r = Rng::new(seed ^ 0xC09);
+        let n = if tier == "thorough" { 160 } else { 14 };
+        let mut cases = vec![];
+        for i in 0..n {
+            let with_restart = i % 2 == 0;
+            let f = Family {
+                factors: if with_restart { &[1, 4, 999] } else { &[0, 1, 4] },
+                restarts: with_restart,
+                evicts: false,
+                max_ops: 7,
+                ..fam("crash")
+            };
+            let mut rr = r.fork(i as u64);
+            let (class, input) = crate::gen::gen_history(&mut rr, &f);
+            // the quick tier truncates the temp file of a log segment to 0% and 50%
+            let trunc = if tier == "thorough" { vec![0u64, 1, 50, 99] } else { vec![0u64, 50] };
+            let mut items = input.items().to_vec();
+            let mut tv = vec![Sx::a("truncate")];
+            tv.extend(trunc.into_iter().map(Sx::int));
+            items.push(Sx::l(tv));
+            cases.push(Case { class, input: Sx::l(items) });
+        }
+        cases
+    }
+    fn run(&self, input: &Sx) -> Vec<Outcome> {
+        run_crash(input)
+    }
+}
+
 const ALL_FACTORS: &[u64] = &[0, 1, 4, 999];
 
 fn fam(name: &'static str) -> Family {
@@ -32,6 +71,7 @@ fn fam(name: &'static str) -> Family {
         nulls: false,
         hex: false,
         odd_names: false,
+        compressible: false,
         restarts: true,
         evicts: true,
         bursts: false,
@@ -43,6 +83,7 @@ fn fam(name: &'static str) -> Family {
 
 pub fn all() -> Vec<Box<dyn Suite>> {
     vec![
+        Box::new(CrashSuite),
         // C08: dense tables, fixed column sets; restarts at every position relative to flushes
         Box::new(HistSuite {
             name: "c08_history",
@@ -73,6 +114,7 @@ pub fn all() -> Vec<Box<dyn Suite>> {
                 (Family { cols: Cols::VaryWithin, odd_names: true, factors: &[999], tiny_wal: true, max_ops: 10, ..fam("vary-within-bgflush") }, 8),
                 (Family { cols: Cols::VaryAcross, odd_names: true, factors: &[1, 4], ..fam("vary-across") }, 10),
                 (Family { cols: Cols::VaryAcross, odd_names: true, factors: &[0], max_ops: 8, ..fam("vary-across-recompact") }, 4),
+                (Family { cols: Cols::VaryAcross, odd_names: true, compressible: true, factors: &[0, 1], restarts: false, max_ops: 6, ..fam("long-compressible-names") }, 2),
             ],
             thorough_scale: 12,
         }),
@@ -86,6 +128,7 @@ pub fn all() -> Vec<Box<dyn Suite>> {
                 (Family { cols: Cols::VaryWithin, nulls: true, factors: &[999], ..fam("nulls-no-compaction") }, 8),
                 (Family { cols: Cols::VaryWithin, nulls: true, factors: &[0, 1, 4], max_ops: 8, ..fam("nulls-compaction") }, 6),
                 (Family { hex: true, factors: &[0, 1], restarts: false, max_ops: 6, ..fam("hex-strings") }, 3),
+                (Family { compressible: true, factors: &[0, 1], restarts: false, max_ops: 6, ..fam("compressible-strings") }, 2),
             ],
             thorough_scale: 12,
         }),
